@@ -1,7 +1,8 @@
 #!/usr/bin/env python3
 """Generate /verif/MANIFEST.json from harness/registry.json, harness/meta.json and harness/na.json."""
 import json, subprocess
-reg = json.load(open('/verif/harness/registry.json'))
+import glob, os
+reg = {os.path.basename(f)[:-5]: json.load(open(f)) for f in glob.glob('/verif/harness/registry/C*.json')}
 meta = json.load(open('/verif/harness/meta.json'))
 na = json.load(open('/verif/harness/na.json'))
 props = [json.loads(l) for l in open('/verif/properties.jsonl')]
